@@ -160,3 +160,74 @@ def mutable_ids(x, acc=None, _depth=0):
         for v in vars(x).values():
             mutable_ids(v, acc, _depth + 1)
     return acc
+
+
+def _first_diff(sa, sb):
+    """Walk two snapshots in parallel; return the class tags at the first differing position."""
+    if sa == sb:
+        return None
+    if (isinstance(sa, tuple) and isinstance(sb, tuple) and len(sa) >= 2 and len(sb) >= 2
+            and sa[0] == sb[0] and isinstance(sa[1], tuple) and isinstance(sb[1], tuple) and len(sa) == len(sb) == 2):
+        if len(sa[1]) != len(sb[1]):
+            return f"{sa[0]}:len"
+        for x, y in zip(sa[1], sb[1]):
+            d = _first_diff(x, y)
+            if d:
+                return d
+        return f"{sa[0]}:?"
+    ta = sa[0] if isinstance(sa, tuple) and sa and isinstance(sa[0], str) else type(sa).__name__
+    tb = sb[0] if isinstance(sb, tuple) and sb and isinstance(sb[0], str) else type(sb).__name__
+    if isinstance(sa, tuple) and isinstance(sb, tuple) and len(sa) == len(sb) and ta == tb:
+        for x, y in zip(sa[1:], sb[1:]):
+            if x != y and isinstance(x, tuple) and isinstance(y, tuple):
+                d = _first_diff(x, y)
+                if d:
+                    return d
+        return f"{ta}:value"
+    return f"{ta}!={tb}"
+
+
+def diff_bucket(a, b) -> str:
+    """Short, stable label of *where* two values first differ (used to bucket violations by cause)."""
+    import re as _re
+    d = _first_diff(snapshot(a), snapshot(b)) or "same"
+    return _re.sub(r"vu[0-9_]+m", "M", d)[:80]
+
+
+def exc_bucket(e: BaseException) -> str:
+    import re as _re
+    msg = _re.sub(r"vu[0-9_]+m", "M", str(e))
+    msg = _re.sub(r"[0-9]+", "N", msg)
+    msg = _re.sub(r"'[^']*'|\"[^\"]*\"", "S", msg)
+    return f"{type(e).__module__}.{type(e).__qualname__}:{msg[:40]}"
+
+
+_US_2_53 = 2 ** 32 * 10 ** 6  # 2**32 seconds: from here on float64 seconds cannot hold microseconds
+
+
+def _is_td(s):
+    return isinstance(s, tuple) and len(s) == 4 and s[0] in ("datetime.timedelta", "pendulum.duration.Duration") \
+        and all(isinstance(x, int) for x in s[1:])
+
+
+def _td_us(s):
+    return (s[1] * 86400 + s[2]) * 10 ** 6 + s[3]
+
+
+def same_up_to_duration_float(a, b) -> bool:
+    """True iff a and b are deep_same except at timedelta leaves of magnitude >= 2**32 seconds
+    (~136 years), which may differ by float64 rounding of their total seconds (relative 2**-50).
+    Diagnoses the known finding K-DURPREC (pendulum builds durations through float seconds)."""
+    return _sudf(snapshot(a), snapshot(b))
+
+
+def _sudf(sa, sb):
+    if sa == sb:
+        return True
+    if _is_td(sa) and _is_td(sb) and sa[0] == sb[0]:
+        ua, ub = _td_us(sa), _td_us(sb)
+        big = max(abs(ua), abs(ub))
+        return big >= _US_2_53 and abs(ua - ub) <= big * 2.0 ** -50
+    if isinstance(sa, tuple) and isinstance(sb, tuple) and len(sa) == len(sb):
+        return all(_sudf(x, y) for x, y in zip(sa, sb))
+    return False
